@@ -98,6 +98,13 @@ Inv3Cases == {[kind |-> "inv3", cls |-> c, M |-> m] : <<c, m>> \in {<<c, m>> \in
 DecompPool(d) == LET P == IF d = 2 THEN Pool2 ELSE Pool3 IN UNION {{[kind |-> "decompose", d |-> d, cls |-> c, M |-> m] : m \in P[c]} : c \in DOMAIN P \ {"Homogeneous"}}
 DecompCases == DecompPool(2) \cup DecompPool(3)
                  \cup {[kind |-> "decompose", d |-> 2, cls |-> "Affine", M |-> m] : m \in {M3(R(1),R(2),Z0, R(3),R(1),Z0), M3(Z0,O1,R(2), O1,Z0,R(-1)), M3(R(-2),Z0,Z0, Z0,R(3),R(1))}}     \* negative determinants
+                 \cup {[kind |-> "decompose", d |-> 2, cls |-> "Affine", M |-> m] : m \in {M3(R(2),Q(1,2),Z0, Z0,R(-1),Z0), M3(R(1),R(1),R(2), R(2),R(-1),Z0)}}
+                 \* mirrored (negative determinant) affines in 3-D: generic, a pure axis flip, a flip composed with a shear
+                 \cup {[kind |-> "decompose", d |-> 3, cls |-> "Affine", M |-> m] : m \in {
+                          M4(<<<<R(1),R(2),Z0>>, <<Z0,R(1),R(1)>>, <<R(1),Z0,R(-2)>>>>, <<R(1),R(-2),R(3)>>),
+                          M4(<<<<R(1),Z0,Z0>>, <<Z0,R(1),Z0>>, <<Z0,Z0,R(-1)>>>>, <<Z0,Z0,Z0>>),
+                          M4(<<<<R(-2),R(1),Z0>>, <<Z0,R(1),Q(1,2)>>, <<Z0,Z0,R(3)>>>>, <<R(1),R(1),R(1)>>),
+                          M4(<<<<Z0,R(1),Z0>>, <<R(1),Z0,Z0>>, <<Q(1,2),Z0,R(2)>>>>, <<Z0,R(2),Z0>>)}}
                  \cup {[kind |-> "decompose", d |-> 2, cls |-> "Rotation", M |-> Rot2(Q(3,5),Q(4,5))], [kind |-> "decompose", d |-> 3, cls |-> "Rotation", M |-> RotX(Q(3,5),Q(4,5))]}
 Discrete(cls) == cls \in {"Rotation", "Translation", "UniformScale", "NonUniformScale"}
 Cases == (IF "decompose" \in Kinds THEN DecompCases ELSE {}) \cup (IF "vec" \in Kinds THEN VecCases(2, Pool2) \cup VecCases(3, [c \in DOMAIN Pool3 \ {"Similarity"} |-> Pool3[c]]) \cup RotVecCases ELSE {})
